@@ -9,7 +9,7 @@ from mc.seams import HKSeam
 PROPERTY = "C20"
 INF = float("inf")
 RULE = (
-    "plot_diagrams: 6-element diagram cover (one point, several, infinite deaths, negative coordinates, "
+    "plot_diagrams: 10-element diagram cover (one point, several, infinite deaths, negative coordinates, "
     "2- and 3-diagram lists) x FULL option product plot_only x lifetime x diagonal x legend x labels "
     "(None/str/list) x xy_range (None / explicit square / explicit non-square) x title x (supplied ax is / is not pyplot's current axes / "
     "no ax given) ; matching plots: the matchings actually returned by bottleneck (under ALL rank "
@@ -31,6 +31,9 @@ COVER = [
     ("three-diagrams", [[[0.0, 2.0]], [[1.0, 3.0], [-1.0, 0.0]], [[0.5, 0.75], [2.0, INF], [2.0, 2.5]]]),
     ("far-from-origin", [[[100.0, 101.5], [100.5, INF], [102.0, 103.0]]]),
     ("inf-born-late", [[[0.0, 1.0], [0.5, 2.0], [3.0, INF]], [[-4.0, INF], [0.25, 0.75]]]),
+    # an essential class born far beyond every finite death (the margin of the automatic extent cannot hide it), and only essential classes
+    ("inf-born-far-later", [[[0.0, 0.5], [0.2, 0.9], [6.0, INF]], [[9.0, INF]]]),
+    ("only-inf", [[[1.0, INF], [4.0, INF]]]),
 ]
 MCOVER = [
     [[0.0, 1.0]],
